@@ -39,7 +39,7 @@ class SetDesc:
         self.unknown += o.unknown
 
 
-COPY = {"set", "frozenset", "list", "tuple", "sorted", "dict"}
+COPY = {"set", "frozenset", "list", "tuple", "sorted", "dict", "OrderedSet"}
 
 
 def describe(fn: ast.AST, cfg: CFG, e: ast.AST, at: int, depth: int = 5) -> SetDesc:
@@ -70,7 +70,9 @@ def describe(fn: ast.AST, cfg: CFG, e: ast.AST, at: int, depth: int = 5) -> SetD
         d.bases.add(unparse(e))
         return d
     if isinstance(e, ast.Call):
-        f = unparse(e.func)
+        f = unparse(e.func.value if isinstance(e.func, ast.Subscript) else e.func)  # OrderedSet[T](...) -> OrderedSet
+        if f in COPY and len(e.args) == 1 and isinstance(e.args[0], (ast.Tuple, ast.List, ast.Set)) and not e.args[0].elts:
+            return d
         if f in COPY and len(e.args) == 1:
             return describe(fn, cfg, e.args[0], at, depth)
         if f in COPY and not e.args:
